@@ -1,20 +1,26 @@
 #!/bin/bash
-# Runs every kept seeded mutant against the check of its property (plus extra checks given in seeded/<name>/also.txt).
-# Writes seeded/RESULTS.tsv : name, check, exit code, #VIOLATION lines, #reproduced natively, #UNDECIDED
+# Runs kept seeded changes against the check of their property (plus extra checks given in seeded/<name>/also.txt), each in a scratch
+# worktree of /repo HEAD under /tmp (QVC_REPO / QVC_OUT; /repo and the committed evidence are not touched; the worktree is removed).
+# usage: tools/run_seeded.sh [name ...]      (default: all)   Updates seeded/RESULTS.tsv rows of the mutants run:
+#   name, check, exit code, #VIOLATION lines, #reproduced natively, #UNDECIDED
 cd "$(dirname "$0")/.."
 out=seeded/RESULTS.tsv
-echo -e "mutant\tcheck\texit\tviolations\treproduced_natively\tundecided" > $out
-for d in seeded/C*_*/; do
-  n=$(basename $d); p=${n%%_*}
+[ -f $out ] || echo -e "mutant\tcheck\texit\tviolations\treproduced_natively\tundecided" > $out
+names="$@"; [ -z "$names" ] && names=$(ls -d seeded/C*_*/ | xargs -n1 basename)
+for n in $names; do
+  d=seeded/$n; p=${n%%_*}
   checks="$p"; [ -f $d/also.txt ] && checks="$checks $(cat $d/also.txt)"
-  git -C /repo diff --quiet || { echo "/repo not clean"; exit 2; }
-  git -C /repo apply $PWD/$d/patch.diff || { echo -e "$n\t-\tpatch-does-not-apply" >> $out; continue; }
+  WT=/tmp/wts_$$_$n; OUT=/tmp/wts_out_$$_$n
+  git -C /repo worktree add -q --detach $WT HEAD || exit 2
+  grep -v -P "^$n\t" $out > $out.tmp; mv $out.tmp $out
+  if ! ( cd $WT && git apply $OLDPWD/$d/patch.diff ); then echo -e "$n\t-\tpatch-does-not-apply" >> $out; git -C /repo worktree remove --force $WT; continue; fi
+  mkdir -p $OUT
   for c in $checks; do
-    timeout 1500 ./check $c > /tmp/seeded_$n_$c.log 2>&1; rc=$?
-    v=$(grep -c "^VIOLATION" /tmp/seeded_$n_$c.log); nf=$(grep -c "no-failing-input-found" /tmp/seeded_$n_$c.log); u=$(grep -c "^UNDECIDED" /tmp/seeded_$n_$c.log)
+    QVC_REPO=$WT QVC_OUT=$OUT timeout 1500 ./check $c > $OUT/$c.log 2>&1; rc=$?
+    v=$(grep -c "^VIOLATION" $OUT/$c.log); nf=$(grep -c "no-failing-input-found" $OUT/$c.log); u=$(grep -c "^UNDECIDED" $OUT/$c.log)
     echo -e "$n\t$c\t$rc\t$v\t$((v-nf))\t$u" >> $out
   done
-  git -C /repo checkout -- .
+  git -C /repo worktree remove --force $WT; rm -rf $OUT
 done
-git checkout -- evidence 2>/dev/null
+{ head -1 $out; tail -n +2 $out | sort; } > $out.tmp; mv $out.tmp $out
 cat $out
